@@ -3,9 +3,15 @@ import itertools
 
 PROP = "C18"
 ENGINE = "path"
-LEAN_MODULES = ["RtoscModel.Props.C18"]
+LEAN_MODULES = ["RtoscModel.Props.C18", "RtoscModel.Props.C18Walk"]
 THEOREMS = ["Rtosc.Path.collapse_eq_spec", "Rtosc.Path.collapse_in_place",
-            "Rtosc.Path.apropos_of_walked", "Rtosc.Path.apropos_of_walked_local", "Rtosc.Path.apropos_of_walked_enum_partial",
+            "Rtosc.Path.apropos_of_walked", "Rtosc.Path.apropos_of_walked_local",
+            "Rtosc.Path.apropos_of_walked_enum", "Rtosc.Path.apropos_of_walked_enum_canon",
+            "Rtosc.Path.apropos_of_walked_enum_partial",
+            "Rtosc.Path.apropos_of_walked_enum_counterexample", "Rtosc.Path.apropos_of_walked_enum_statement_false",
+            "Rtosc.Path.apropos_of_walked_enum_zero_count_counterexample",
+            "Rtosc.Path.apropos_of_walked_enum_overflow_counterexample",
+            "Rtosc.Path.walked_is_enumerate", "Rtosc.Path.walked_is_enumerate_literal", "Rtosc.Path.apropos_of_enumerated",
             "Rtosc.Path.index_spec", "Rtosc.Path.search_location_dir",
             "Rtosc.Path.search_children", "Rtosc.Path.search_sorted", "Rtosc.Path.search_unique_prefix",
             "Rtosc.Path.search_reply_wf", "Rtosc.Path.sort_result_unique"]
@@ -29,15 +35,24 @@ RULE = ("collapse: every absolute path of 1..8 distinct components with '..' at 
         "distinct = distinct op line")
 ASSUMPTIONS = ["port names are NUL-free and non-empty and do not use '{' or '*' (those pattern characters are C05's subject; the "
                "model answers `unsupported`); a port with a sub-table has a name ending in '/'",
-               "the lookup THEOREM for whole trees (apropos_of_walked) is about literal names only (no '#'); for enumerated rows "
-               "`name#N` (one '#' per name, 1 <= N < 2^31, followed by a non-digit) the model has the '#' branch of "
-               "rtosc_match_path and the check compares it with the code and checks every walked address, but only the "
-               "single-row step is proved (apropos_of_walked_enum_partial); the whole-tree statement is "
-               "apropos_of_walked_enum_statement (not proved)",
+               "the lookup theorem apropos_of_walked is about trees of literal names (no '#'); apropos_of_walked_enum is about trees "
+               "with literal and enumerated rows `pre#N post` (one '#' per name, N < 2^31 followed by a non-digit; every "
+               "row expanded to its N elements at every level: walkE) under two hypotheses: TreeOKE (no expanded name of a row "
+               "is a prefix of an expanded name of another row of the same table) and TreeNumOK (RtoscModel/Path/EnumNum.lean: "
+               "the same for every name the other row's pattern ACCEPTS, i.e. with the index written with any number of leading "
+               "zeros, as rtosc_match_number's atoi reads it; every enumerated row has N >= 1; the digits that follow another "
+               "enumerated row's text in a name stay below 2^31). TreeOKE alone is not enough: "
+               "apropos_of_walked_enum_counterexample (table `a#5x`, `a00x`: the lookup of the walked address a00x returns the "
+               "row a#5x, in the model and in the compiled code), ..._zero_count_counterexample (`x#0`, `x`), "
+               "..._overflow_counterexample (`a#2`, `a9999999999`: atoi overflow, the model answers `unsupported`). "
+               "apropos_of_walked_enum_canon replaces TreeNumOK by a condition read off the names (CanonList, decidable as "
+               "canonListB; treeNumOK_of_canon): every N >= 1, no '#' directly behind a digit, and every digit run in the "
+               "literal text of a name is a number below 2^31 written without leading zeros",
                "generated port names use bytes 1..126 only: Ports::refreshMagic (find_assoc/do_hash, C04's hashing) indexes a "
                "127-entry table with the name's char, so other bytes are undefined behaviour before any C18 function runs",
                "lookup of a walked address: no other row of a table on the way is a prefix of, or prefixed by, the row taken "
-               "(names compared up to ':'; for enumerated rows: no expanded name of one row is a prefix of an expanded name of another)",
+               "(names compared up to ':'; for enumerated rows: no expanded name of one row is a prefix of, or prefixed by, a name "
+               "another row's pattern accepts - leading zeros in the index included)",
                "child search: 'the addressed port' is what the model of Ports::apropos returns for the location "
                "(SearchHyp.resolves); search_location_dir proves that the address of a directory (literal names, no sibling a "
                "prefix of the row taken, last directory name with its only '/' at its end) resolves to that directory's table; "
@@ -48,20 +63,33 @@ ASSUMPTIONS = ["port names are NUL-free and non-empty and do not use '{' or '*' 
                "max_args >= 2 * (matching children) + 2 * reply_with_query and max_types = max_args + 1 as documented",
                "std::sort is modelled by its contract (any permutation sorted by the comparator)",
                "path lengths and message sizes below 2^31 (int consuming, unsigned pos)",
-               "`walk` (RtoscModel/Path/Apropos.lean) / `walkE` (Path/Enum.lean) are this property's own short specifications of "
-               "the addresses walk_ports reports; they are not derived from C09's model of walk_ports"]
+               "'an address that a port-tree walk reported': `walk` (RtoscModel/Path/Apropos.lean) / `walkE` (Path/Enum.lean) are this "
+               "property's own short specifications of the addresses walk_ports reports; walked_is_enumerate(_literal) proves "
+               "them equal (same addresses, same ports, same order) to C09's enumeration specification `enumerate` "
+               "(RtoscModel/Walk/Spec.lean) on every tree of C09's well-formed names with at most one '#' per name, and "
+               "apropos_of_enumerated states the lookup clause directly for the calls `enumerate` lists; that the compiled "
+               "walk_ports reports exactly `enumerate` is C09's subject (names with several '#': C09-K1, outside this clause)"]
 TRUSTED = ["hand-written models RtoscModel/Path/{Collapse,Apropos,Search}.lean of collapsePath / parent_path_p / read_path / "
            "move_path, Ports::operator[], Ports::apropos, rtosc_match_path for patterns of literal characters and '#N' "
            "(with rtosc_match_number; atoi below 2^31), both path_search overloads, and rtosc_amessage restricted to "
            "'s'/'b' arguments",
-           "specification of the walked addresses (`walk`, `walkE`) written for this property, not linked to C09's walk_ports model",
+           "specification of the walked addresses (`walk`, `walkE`) written for this property; proved equal to C09's "
+           "specification `enumerate` (walked_is_enumerate), whose tie to the code is C09's",
            "contract of std::sort"]
 LEVEL_TEXT = ("Lean theorems hold for all paths, trees and queries of any size: collapse_eq_spec, collapse_in_place (collapsing); "
-              "apropos_of_walked (lookup of every walked address, for trees of literal names); search_children, search_sorted, "
+              "apropos_of_walked (lookup of every walked address, trees of literal names) and apropos_of_walked_enum (the same for "
+              "trees with enumerated rows `name#N`, `name#N/`, `pre#N post` at any level, every expanded address, by induction "
+              "over the tree); search_children, search_sorted, "
               "search_unique_prefix (the children, their order, and each blob = exactly the metadata block, length field "
-              "included), search_reply_wf (well-formed reply), search_location_dir (a directory address selects that directory's rows). For enumerated rows `name#N` only the one-row step of the lookup "
-              "is proved (apropos_of_walked_enum_partial); the whole-tree statement apropos_of_walked_enum_statement is "
-              "stated, not proved, and is covered by the comparison and the oracle only. The models the theorems are about "
+              "included), search_reply_wf (well-formed reply), search_location_dir (a directory address selects that directory's rows). "
+              "For enumerated rows the hypothesis 'no sibling's name is a prefix of another's' has to be read on the names a "
+              "row's pattern accepts (index with leading zeros), with N >= 1 and no atoi overflow (TreeNumOK): with the reading "
+              "'expanded names' alone the clause is false of the model and of the code (apropos_of_walked_enum_counterexample: "
+              "next to `a#5x` the walked address `a00x` of a literal sibling resolves to `a#5x`; "
+              "apropos_of_walked_enum_statement_false); for names whose literal digit runs are numbers printed without leading "
+              "zeros and whose '#' does not follow a digit the plain reading suffices (apropos_of_walked_enum_canon). "
+              "walked_is_enumerate: the walked addresses of these theorems are exactly the calls of C09's enumeration "
+              "specification (apropos_of_enumerated states the clause for them). The models the theorems are about "
               "are compared with the compiled implementation (ASan/UBSan, exact-size allocations) on thousands of generated "
               "cases per run, and an independent Python reference of the specification is evaluated on the implementation's output")
 LEVEL_NOTE = ("Trusted: Lean kernel; the hand-written model is tied to the code by differential execution only; see evidence "
@@ -69,7 +97,10 @@ LEVEL_NOTE = ("Trusted: Lean kernel; the hand-written model is tied to the code 
               "location; search_location_dir ties a directory address to the rows of that directory for literal single-'/' "
               "directory names, apropos_of_walked does it for leaf addresses; other locations are unconstrained. Outputs for addresses/locations "
               "the property does not constrain are not compared (only memory safety); an empty blob is compared by its length, "
-              "not by its data pointer.")
+              "not by its data pointer. The Python oracle's `unambiguous` compares expanded names only (the reading that "
+              "apropos_of_walked_enum_counterexample refutes); the generator's name pool has no literal name that an "
+              "enumerated sibling's pattern accepts with leading zeros, so the two readings agree on every generated tree. "
+              "Names with more than one '#', and '{' / '*' patterns, are outside the lookup theorems.")
 
 
 def hx(b):
